@@ -19,6 +19,9 @@ ARG = {
     "tup": ("(u32, String)", ['(1, "23".to_string())', '(12, "3".to_string())', '(1, "2|3".to_string())', '(0, "".to_string())',
                               '(0, "|".to_string())', '(7, "a".to_string())', '(7, "b".to_string())', '(8, "a".to_string())']),
     "idx": ("u32", ["0", "1", "2", "3", "4", "5", "6", "7"]),
+    # written as a destructuring pattern `(p, q): (u32, char)` in the signature (Copy members: the
+    # library's key expression uses the pattern as an expression, so non-Copy members cannot work)
+    "pat_tup": ("(u32, char)", ["(1, 'a')", "(12, 'a')", "(1, '|')", "(0, '0')", "(0, '|')", "(7, 'a')", "(7, 'b')", "(8, 'a')"]),
     "f64": ("f64", ["0.0", "1.0", "-1.0", "0.5", "1.5", "12.0", "1e10", "-0.5"]),
 }
 # two string arguments whose concatenations collide unless boundaries are kept
@@ -112,7 +115,7 @@ add(kind="sync", scope="thread", tags=["t0", "x"], events=["e0"], family="group"
 # signature shapes
 shapes = [
     [], ["u32"], ["String"], ["str"], ["char", "bool"], ["i64", "str"], ["String", "String"], ["SS"], ["SSstr"], ["SSmix"],
-    ["optu32", "vecu8"], ["tup", "char", "u32"], ["u32", "i64", "String", "bool"], ["f64", "u32"], ["vecu8"], ["str", "str", "char"],
+    ["optu32", "vecu8"], ["tup", "char", "u32"], ["pat_tup"], ["u32", "pat_tup"], ["u32", "i64", "String", "bool"], ["f64", "u32"], ["vecu8"], ["str", "str", "char"],
 ]
 for sig in shapes:
     for kind in ("sync", "async"):
@@ -253,8 +256,12 @@ for i, f in enumerate(FNS):
     for j, (t, alph, mul, off) in enumerate(tables):
         ty = "String" if t == "String" else ARG[t][0]
         pname = f"a{j}"
-        decl_params.append(f"{pname}: {ty}")
-        repr_parts.append(f"&{pname}")
+        if t == "pat_tup":
+            decl_params.append(f"(p{j}, q{j}): {ty}")
+            repr_parts.append(f"&(p{j}, q{j})")
+        else:
+            decl_params.append(f"{pname}: {ty}")
+            repr_parts.append(f"&{pname}")
         n = len(alph)
         vals = ", ".join(alph)
         if ty == "String":
